@@ -1,4 +1,5 @@
 """C19 — presentation options never change what is decoded; -U is decode-neutral."""
+import os
 import core, gen, frames as F
 from props.base import PropBase
 
